@@ -73,6 +73,8 @@ func init() {
 				}
 			}
 			out = append(out, inst("internal/maincmd", "HPush"))
+			// a request by index reaches the right file (top-level names; a subdirectory next to a sibling)
+			out = append(out, inst("internal/sender", "HSenderNumbering"), inst("internal/sender", "HSenderNumberingDir"))
 			// several files in one session; the real block size (700) with block-aligned files
 			out = append(out, inst("internal/sender", "HDeltaTwoFiles", "n", 2, "m", 2, "b", 1))
 			out = append(out, inst("internal/maincmd", "HClientPull", "n", 40000))
@@ -86,7 +88,7 @@ func init() {
 			}
 			return out
 		},
-		MustReach: []string{"transferred", "skipped", "deleted", "kept", "delta-saved", "blockref", "pulled"},
+		MustReach: []string{"transferred", "skipped", "deleted", "kept", "delta-saved", "blockref", "pulled", "numbered"},
 		Redirects: sym.VfsRedirects(),
 		Bounds:    "per file: generator -> sender -> receiver composed on the real functions; source n bytes, prior destination absent (m=-1) or a regular file of m bytes, all contents, seeds, mtimes (int32) and -c -I -t -p symbolic; plus a push of a directory tree through the real client, option plumbing and receiving server (HPush)",
 		Outside:   "files of 700 bytes and more (multi-block layouts are covered on the sender/receiver halves under C02), directory walking with several regular files in one session, the pull and local arrangements end to end, real sockets/pipes/processes",
@@ -176,10 +178,11 @@ func init() {
 			}
 			out = append(out, inst("internal/sender", "HDeltaTwoFiles", "n", 2, "m", 2, "b", 1))
 			// the sender's read window on a file larger than 256 KiB (one request; thorough: two in sequence)
-			out = append(out, func() Instance { i := inst("internal/sender", "HMapPtr", "size", 300000, "calls", 1); i.MaxAlloc = 1 << 20; return i }())
+			out = append(out, func() Instance { i := inst("internal/sender", "HMapPtr", "size", 300000, "calls", 1, "grow", 0); i.MaxAlloc = 1 << 20; return i }())
+			out = append(out, func() Instance { i := inst("internal/sender", "HMapPtr", "size", 300000, "calls", 2, "grow", 1); i.MaxAlloc = 1 << 20; return i }())
 			if tier == "thorough" {
-				out = append(out, func() Instance { i := inst("internal/sender", "HMapPtr", "size", 300000, "calls", 2); i.MaxAlloc = 1 << 20; return i }())
-				out = append(out, func() Instance { i := inst("internal/sender", "HMapPtr", "size", 600000, "calls", 1); i.MaxAlloc = 1 << 20; return i }())
+				out = append(out, func() Instance { i := inst("internal/sender", "HMapPtr", "size", 300000, "calls", 2, "grow", 0); i.MaxAlloc = 1 << 20; return i }())
+				out = append(out, func() Instance { i := inst("internal/sender", "HMapPtr", "size", 600000, "calls", 1, "grow", 0); i.MaxAlloc = 1 << 20; return i }())
 			}
 			// block length 3 is the smallest with weak-checksum collisions; m=6 gives a duplicated block
 			for _, nm := range [][2]int{{3, 3}, {3, 4}, {3, 6}, {4, 6}, {4, 4}} {
@@ -324,16 +327,18 @@ func init() {
 		ID: "C16",
 		Instances: func(tier string) []Instance {
 			out := []Instance{
-				inst("internal/sender", "HDeltaComplete", "n", 2, "kb", 2, "b", 1),
-				inst("internal/sender", "HDeltaComplete", "n", 3, "kb", 1, "b", 2),
-				inst("internal/sender", "HDeltaComplete", "n", 4, "kb", 2, "b", 2),
-				inst("internal/sender", "HDeltaComplete", "n", 5, "kb", 1, "b", 3),
+				inst("internal/sender", "HDeltaComplete", "n", 2, "kb", 2, "b", 1, "s2", 16),
+				inst("internal/sender", "HDeltaComplete", "n", 3, "kb", 1, "b", 2, "s2", 16),
+				inst("internal/sender", "HDeltaComplete", "n", 4, "kb", 2, "b", 2, "s2", 16),
+				inst("internal/sender", "HDeltaComplete", "n", 5, "kb", 1, "b", 3, "s2", 16),
 				inst("internal/sender", "HDeltaEdit", "p", 1, "s", 0, "kb", 1, "b", 2, "c", 0),
+				// short strong checksums (what other implementations send for small files)
+				inst("internal/sender", "HDeltaComplete", "n", 3, "kb", 1, "b", 2, "s2", 2),
 			}
 			if tier == "thorough" {
 				out = append(out,
-					inst("internal/sender", "HDeltaComplete", "n", 3, "kb", 3, "b", 1),
-					inst("internal/sender", "HDeltaComplete", "n", 5, "kb", 2, "b", 2),
+					inst("internal/sender", "HDeltaComplete", "n", 3, "kb", 3, "b", 1, "s2", 16),
+					inst("internal/sender", "HDeltaComplete", "n", 5, "kb", 2, "b", 2, "s2", 16),
 					// (n=6,kb=2,b=3) did not finish within 35 minutes and is not registered
 					inst("internal/sender", "HDeltaEdit", "p", 1, "s", 1, "kb", 2, "b", 2, "c", 0),
 					inst("internal/sender", "HDeltaEdit", "p", 2, "s", 0, "kb", 1, "b", 3, "c", 0),
@@ -342,7 +347,7 @@ func init() {
 			return out
 		},
 		MustReach: []string{"identical", "match-found", "match-unaligned", "saved", "done"},
-		Bounds:    "arbitrary basis of kb full blocks of length b and arbitrary target of n bytes (all byte values incl. >= 0x80, all seeds), full-length strong sums: identical file => zero literal bytes; at every byte offset o (symbolic) where the window equals a basis block and no earlier reference overlaps, a block reference starts at o; target = P+basis+S => literal bytes <= |P|+|S|",
+		Bounds:    "arbitrary basis of kb full blocks of length b and arbitrary target of n bytes (all byte values incl. >= 0x80, all seeds), full-length strong sums (one instance with 2-byte strong sums): identical file => zero literal bytes; at every byte offset o (symbolic) where the window equals a basis block and no earlier reference overlaps, a block reference starts at o; target = P+basis+S => literal bytes <= |P|+|S|",
 		Outside:   "block lengths above 3, files above 6 bytes, real block sizes (700..131072) and the 256 KiB window",
 	})
 	reg(&Property{
@@ -367,15 +372,30 @@ func init() {
 				i.MaxAlloc = 1 << 20
 				out = append(out, i)
 			}
+			// the real sender behind the real MultiplexWriter: frames at the server's call sites
+			frameSizes := []int{262144}
+			if tier == "thorough" {
+				frameSizes = []int{262144, 524288}
+			}
+			for _, sz := range frameSizes {
+				for _, mode := range []int{0, 1} {
+					i := inst("internal/sender", "HSendFrames", "size", sz, "mode", mode)
+					i.MaxAlloc = 1 << 21
+					if mode == 1 {
+						i.MaxSteps = 400_000_000 // the search loop runs once per byte of the file
+					}
+					out = append(out, i)
+				}
+			}
 			// the real client stack (ClientRun) on a frame larger than 32 KiB / at the frame limit
 			out = append(out, inst("internal/maincmd", "HClientPull", "n", 40000))
 			out = append(out, inst("internal/maincmd", "HClientPull", "n", 262140))
 			return out
 		},
 		Redirects: sym.VfsRedirects(),
-		MustReach: []string{"data", "eof", "errorframe", "unknowntag", "accepted", "rejected", "ok", "pulled"},
-		Bounds:    "reader: k frames, each with symbolic tag (data/info/error/unknown), length 0..3 and payload, consumed in chunks of symbolic size 1..4 through the real 256 KiB bufio.Reader; frames of maxMessageSize-1, maxMessageSize, maxMessageSize+1 behind 0..2 info frames; runs of up to 128 info frames; writer: payload 0..3 bytes, tags 0..2",
-		Outside:   "more than k frames per stream; payload lengths between 4 and maxMessageSize-2; server call-site payload sizes",
+		MustReach: []string{"data", "eof", "errorframe", "unknowntag", "accepted", "rejected", "ok", "pulled", "done"},
+		Bounds:    "reader: k frames, each with symbolic tag (data/info/error/unknown), length 0..3 and payload, consumed in chunks of symbolic size 1..4 through the real 256 KiB bufio.Reader; frames of maxMessageSize-1, maxMessageSize, maxMessageSize+1 behind 0..2 info frames; runs of up to 128 info frames; writer: payload 0..3 bytes and 255..262144 bytes (first/last byte symbolic), tags 0..2; server call sites: real SendFiles through the real MultiplexWriter for one file of 262140..262145 bytes (thorough: also 524284..524289), whole-file path and one-literal-run delta path, every frame <= 256 KiB and the de-framed stream well formed",
+		Outside:   "more than k frames per stream; payload lengths between 4 and maxMessageSize-2 on the reader side; server call sites other than file-list and file data of one file",
 	})
 	reg(&Property{
 		ID: "C09",
@@ -428,7 +448,7 @@ func init() {
 		},
 		MustReach: []string{"done", "transferred", "retouched", "kept-perms", "dir", "link", "device", "rdev", "target"},
 		Redirects: sym.VfsRedirects(),
-		Bounds:    "wire: one entry of any of the 7 types with symbolic permission bits, int32 mtime, 32-bit uid/gid/rdev, 1-byte link target, every subset of -l -o -g -D -c (devices and specials switched together), sender encoder -> reference decoder and reference encoder -> receiver decoder; destination: the same entry synchronised over any prior object (8 kinds, arbitrary metadata) under every subset of the preserve options, as root",
+		Bounds:    "wire: one entry of any of the 7 types with symbolic permission bits, int32 mtime, 32-bit uid/gid/rdev, 1-byte link target (decoder: 2 arbitrary bytes), every subset of -l -o -g -D -c (devices and specials switched together), sender encoder -> reference decoder and reference encoder -> receiver decoder; destination: the same entry synchronised over any prior object (8 kinds, arbitrary metadata) under every subset of the preserve options, as root",
 		Outside:   "effect of chmod/chown/utimes system calls (model); name-service lookups (always fail in the model: ids are kept numerically); --devices without --specials or vice versa (see C14); hard links",
 	})
 	reg(&Property{
@@ -440,6 +460,8 @@ func init() {
 				inst("internal/receiver", "HUpdateRule", "m", 2, "secbits", 0),
 				inst("internal/receiver", "HIdempotent", "n", 0),
 				inst("internal/receiver", "HIdempotent", "n", 2),
+				// the mtime the sender puts on the wire is the source mtime rounded down to whole seconds
+				inst("internal/sender", "HFlistEncode", "n", 1, "split", 1),
 			}
 			if tier == "thorough" {
 				out = append(out, inst("internal/receiver", "HUpdateRule", "m", 4, "secbits", 0), inst("internal/receiver", "HUpdateRule", "m", 1, "secbits", 8), inst("internal/receiver", "HIdempotent", "n", 5))
@@ -448,7 +470,7 @@ func init() {
 		},
 		MustReach: []string{"skip", "request", "noop"},
 		Redirects: sym.VfsRedirects(),
-		Bounds:    "destination: absent | regular (m bytes, symbolic content, mtime seconds over int32, nanoseconds 0..999999999) | empty directory | symlink; list entry: 64-bit length, int32 mtime, 16-byte checksum, all symbolic; options -c -I -t -n -p symbolic; idempotence as one inductive step from the post-state of a successful transfer",
+		Bounds:    "sender: wire mtime of one entry with symbolic seconds (int32) and nanoseconds 0..999999999 equals the whole seconds; destination: absent | regular (m bytes, symbolic content, mtime seconds over int32, nanoseconds 0..999999999) | empty directory | symlink; list entry: 64-bit length, int32 mtime, 16-byte checksum, all symbolic; options -c -I -t -n -p symbolic; idempotence as one inductive step from the post-state of a successful transfer",
 		Outside:   "destination mtimes outside the int32 range; time.Truncate(time.Second) is modelled as clearing the nanosecond field",
 	})
 	reg(&Property{
@@ -521,6 +543,8 @@ func init() {
 				inst("internal/receiver", "HFlistDecode", "k", 2, "opts", 0, "same", 0),
 				inst("internal/sender", "HFlistEncode", "n", 1, "split", 1),
 				inst("internal/sender", "HSenderNumbering"),
+				inst("internal/sender", "HSenderNumberingDir"),
+				func() Instance { i := inst("internal/sender", "HIdLists", "namesvc", 1); i.SymOnly = true; return i }(),
 			}
 			if tier == "thorough" {
 				out = append(out,
@@ -534,8 +558,8 @@ func init() {
 			return out
 		},
 		Redirects: sym.VfsRedirects(),
-		MustReach: []string{"short", "long", "done", "samename", "rdev", "target", "numbered"},
-		Bounds:    "integers: all 64-bit values. decoder: lists of k entries built by an independent protocol-27 reference encoder; all field values symbolic (64-bit lengths incl. the 12-byte form, int32 mtime/uid/gid/rdev, all 7 types, all permission bits, names of 1..k bytes incl. bytes >= 0x80 with symbolic shared-prefix compression), option sets and 'same as previous' flag masks per instance (k=1: every option subset)",
+		MustReach: []string{"short", "long", "done", "samename", "rdev", "target", "numbered", "uidlist", "gidlist"},
+		Bounds:    "id lists: one file with symbolic uid and gid, -o/-g symbolic, name service stand-in in which every id resolves (symbolic mode only, no native replay); integers: all 64-bit values. decoder: lists of k entries built by an independent protocol-27 reference encoder; all field values symbolic (64-bit lengths incl. the 12-byte form, int32 mtime/uid/gid/rdev, all 7 types, all permission bits, names of 1..k bytes incl. bytes >= 0x80 with symbolic shared-prefix compression), option sets and 'same as previous' flag masks per instance (k=1: every option subset)",
 		Outside:   "lists longer than k; names containing '/' or '.' (name sanitising is C05's subject); duplicate names; not every combination of option subset x same-flag mask for k >= 2 (the listed masks)",
 	})
 }
